@@ -11,7 +11,7 @@ All through the public API, in the functional's own (weighted) inner product.
 import numpy as np
 import odl
 
-from .. import functab, util
+from .. import cover, functab, util
 
 SHARDS = {'quick': 4, 'thorough': 16}
 S = odl.solvers
@@ -292,6 +292,8 @@ def run(ctx):
                      'biconjugate and the Moreau decomposition for sigma in {0.4, 2}; distinct = distinct (functional, space)')
     rng = ctx.rng('c08')
     crng = ctx.crng('ctor')
+    cov = cover.functional_cover(('convex_conj', '_call'))
+    cov.arm()
     recipes = list(functab.all_functionals(crng, ctx.thorough, with_complex=True))
     for sname, sp in functab.spaces():
         for fname, thunk, tags in extra_functionals(sp, crng):
@@ -312,5 +314,6 @@ def run(ctx):
         if i % 29 == 0:
             ctx.sample({'functional': fname, 'space': util.srepr(sp, 60)})
         check(ctx, fname, sname, sp, f, tags, rng)
+    cover.report_to(ctx, cov)
     for m in ('fenchel-young', 'fy-equality', 'biconjugate', 'moreau'):
         ctx.ev(m, 0)
